@@ -151,6 +151,14 @@ Lemma generated_history_one_per_epoch (V : Type) (tl vl : nat -> V) (tm vm : nat
     /\ Forall (fun kv => length (snd kv) = max_epochs) h.
 Proof. intros H1 H2. rewrite gen_solve_is_model. now apply history_one_per_epoch_all. Qed.
 
+(* the live history dictionary leaves the epoch loop only towards monitor.check; either a copy is
+   handed over or no monitor of temporal.py performs an in-place operation on it (a fail-closed
+   analysis of every use of the `history` parameter, helpers included), so the monitor cannot
+   change what _solve_* returns *)
+Lemma monitors_keep_history :
+  history_handoff_is_copy = true \/ forallb (fun p => snd p) history_receivers_pure = true.
+Proof. destruct history_handoff_is_copy; [left; reflexivity | right; reflexivity]. Qed.
+
 Example generated_loop_runs :
   option_map' (slices_of [3; 0; 4; 1; 2])
     (while_fuel (train_2dspatial_loop_cond 2 5) (train_2dspatial_loop_body 2 5) 6 (train_2dspatial_loop_init 2 5))
